@@ -99,6 +99,8 @@ def run(prop, tier, seed, a):
             refuted.append(v)
         for v in extra.get('errors', []):
             errors.append(v)
+        for v in extra.get('undecided', []):
+            undecided.append(dict(name=v['name'], status='undecided', detail=v.get('detail', ''), meta={}))
     code = 0
     lines = []
     if errors or disagree: code = 3
@@ -137,7 +139,8 @@ def run(prop, tier, seed, a):
                functions_under_contract=cx.functions,
                per_obligation=[dict(name=r['name'], status=r['status'], backend=r.get('backend'), solver_s=r.get('time'),
                                     expect=r.get('expect'), kind=r.get('meta', {}).get('kind', 'post'),
-                                    known_finding=r.get('known_finding'),
+                                    known_finding=r.get('known_finding'), detail=(r.get('detail') or '')[:300] or None,
+                                    info={k: str(v)[:300] for k, v in r.get('meta', {}).items() if k in ('found', 'outcomes', 'why', 'statement', 'function', 'writes', 'loops')},
                                     sub=[x for x in r.get('sublog', [])][:20]) for r in results],
                back_ends=backends, paths_explored=cx.paths,
                generation_s=round(gen_s, 2), solver_wall_s=round(solve_s, 2),
